@@ -499,6 +499,8 @@ def _pyeval(node, env):
                 r = {ast.Lt: left < right, ast.LtE: left <= right, ast.Gt: left > right, ast.GtE: left >= right}[t]
             elif t in (ast.In, ast.NotIn):
                 r = (left in right) if t is ast.In else (left not in right)
+            elif t in (ast.Is, ast.IsNot):
+                r = (left is right) if t is ast.Is else (left is not right)
             else:
                 r = ok[t]
             if not r:
@@ -583,4 +585,58 @@ def renderconst(repo):
             break
     res.samples = [f"{len(edges)} edge values rendered and folded back"]
     res.analysed = [HG]
+    return res
+
+
+# ---- R-NEGEXP: no power with a negative exponent on an unchecked width ------------------------------------
+def negexp(repo):
+    """R-NEGEXP (C16): the leaf-range function of expression_bounds runs before the width requirements of the prelude
+    types are checked, so it sees every width the grammar can express, including 0.  In Python `2 ** -1` is the float
+    0.5; it ends up in a decimal string and crashes the next pass.  For every power whose exponent depends on the
+    width parameter, the function is followed with the width bound to 0: either an earlier guard leaves the function,
+    or the exponent must be non-negative."""
+    res = RuleResult("R-NEGEXP")
+    m = repo.mod(EB)
+    f = None
+    for g in m.top_funcs():
+        ps = [a.arg for a in g.node.args.args]
+        if any(isinstance(n, ast.BinOp) and isinstance(n.op, ast.Pow) for n in walk_no_nested_funcs(g.node)) and \
+                any(p in ("type_size", "size", "bits") for p in ps):
+            f = g
+            break
+    if f is None:
+        raise AnalysisError("expression_bounds: the leaf-range function (powers of the type size) was not found")
+    wparam = next(p for p in [a.arg for a in f.node.args.args] if p in ("type_size", "size", "bits"))
+
+    def leaves_for(width):
+        """True if a top-level guard before the powers returns for this width."""
+        for st in f.node.body:
+            if isinstance(st, ast.If) and isinstance(st.body[-1], ast.Return):
+                try:
+                    if _pyeval(st.test, {wparam: width}):
+                        return True
+                except Unfoldable:
+                    continue
+                except TypeError:
+                    continue
+        return False
+
+    for n in walk_no_nested_funcs(f.node):
+        if isinstance(n, ast.BinOp) and isinstance(n.op, ast.Pow) and any(isinstance(x, ast.Name) and x.id == wparam for x in ast.walk(n.right)):
+            res.instances += 1
+            for width in (0,):
+                if leaves_for(width):
+                    continue
+                try:
+                    e = _pyeval(n.right, {wparam: width})
+                except Unfoldable:
+                    continue
+                if e < 0:
+                    res.add(f"{EB}|{f.name}|{ast.unparse(n)}", f"{f.name} evaluates `{ast.unparse(n)}` for a type of width {width} (exponent "
+                            f"{e}): the result is a float, the bound becomes a non-integer string and the next pass dies with a "
+                            "ValueError instead of the compiler reporting the illegal width", EB, n.lineno, f.name)
+    if res.instances < 3:
+        raise AnalysisError(f"{f.name}: only {res.instances} width-dependent powers found")
+    res.samples = [f"{f.name}: {res.instances} powers of `{wparam}`, none reached with a negative exponent"]
+    res.analysed = [EB]
     return res
